@@ -183,6 +183,17 @@ def mask(data):
 
 _INC = re.compile(rb"^\s*(?:\S+:?\s+)?include\s+\"?([^\s\"';]+)", re.I | re.M)
 _FUNC = re.compile(rb"^\S+\s+function\s", re.I | re.M)
+_SH7K = re.compile(rb"^\s*cpu\s+sh7", re.I | re.M)
+
+
+def mechanism(text):
+    """source classes for which the pinned tree is known to re-parse / re-use internally formatted integers"""
+    if _FUNC.search(text):
+        return "userfunc"            # arguments of user-defined functions are substituted as text
+    if _SH7K.search(text):
+        return "sh7000-literal"      # code7000.c names literal-pool symbols LITERAL_W_<hex>
+    return "unknown"
+
 
 
 def source_text(path, dirs, seen=None):
@@ -215,10 +226,10 @@ def sources(tier, r):
     for (name, d, asm, flags) in tests:
         text = source_text(asm, [INCLUDE])
         out.append({"name": name, "copy": d, "flags": flags, "stringify": b"\\{" in text,
-                    "userfunc": bool(_FUNC.search(text))})
+                    "mechanism": mechanism(text)})
     for name, text in GEN_PROGRAMS.items():
         out.append({"name": name, "copy": None, "text": text, "flags": [], "stringify": "\\{" in text,
-                    "userfunc": bool(_FUNC.search(text.encode("latin-1")))})
+                    "mechanism": mechanism(text.encode("latin-1"))})
     return out
 
 
@@ -270,7 +281,7 @@ def attribute(rep, bld, failing, plain):
                       case={"source": name, "vector": vec, "tag": str(tag)},
                       files={"argv": " ".join(job["argv"]), "env": json.dumps(job.get("env")),
                              "stdout.txt": res.out[-3000:], "stderr.txt": res.err[-3000:]},
-                      key={"kind": "codediff", "culprit": cul, "userfunc": bool(s.get("userfunc"))})
+                      key={"kind": "codediff", "culprit": cul, "mechanism": s.get("mechanism", "unknown")})
 
 
 def main(tier):
